@@ -56,6 +56,9 @@ var c09Specs = []c09Spec{
 	{"k,j@num", product([]string{"b", "a", "-"}, []string{"10", "9", "-"})},
 	{"k@num", product([]string{"10", "9", "1k", "1000", "1Ki", "1.5M", "NaN", "nan", "x", "y", "-"}, []string{"-"})},
 	{"k@(b a),j", product([]string{"b", "a"}, []string{"-", "2", "1"})},
+	// two fields drawing on ONE set of value strings, observed in an order that is not the bytewise one: a value
+	// can be new to its field although the projection has seen the string under the other field
+	{"k,j", product([]string{"8", "4", "-"}, []string{"8", "4", "-"})},
 	{".config", cfgResults(
 		[][2]string{{"k", "z"}}, [][2]string{{"k", "a"}}, [][2]string{{"j", "1"}}, [][2]string{{"k", "z"}, {"j", "2"}},
 		[][2]string{{"j", "2"}, {"k", "a"}}, nil, [][2]string{{"k", "m"}, {"j", "1"}}, [][2]string{{"i", "q"}})},
@@ -492,7 +495,7 @@ func c09Space(c *mc.Check, depth int) {
 			break
 		}
 	}
-	f.Sample(c09Case{5, []int{0, 1}})
+	f.Sample(c09Case{6, []int{0, 1}})
 	f.Sample(c09Case{3, []int{2, 3, 6, 8}})
 	f.Done()
 }
